@@ -170,8 +170,17 @@ func (t *CallableType) Default() px.Type {
 }
 
 func (t *CallableType) Equals(o interface{}, g px.Guard) bool {
-	_, ok := o.(*CallableType)
-	return ok
+	ot, ok := o.(*CallableType)
+	return ok && optionalTypeEquals(t.paramsType, ot.paramsType, g) &&
+		optionalTypeEquals(t.blockType, ot.blockType, g) && optionalTypeEquals(t.returnType, ot.returnType, g)
+}
+
+// optionalTypeEquals compares two types that may be absent
+func optionalTypeEquals(a, b px.Type, g px.Guard) bool {
+	if a == nil || b == nil {
+		return a == nil && b == nil
+	}
+	return a.Equals(b, g)
 }
 
 func (t *CallableType) Generic() px.Type {
